@@ -171,7 +171,12 @@ def gen_cases(rec, rng, tier):
         RP, eps = txg.pda(rng)
         yield {'kind': 'pda', 'cls': 'random_pda', 'ref': RP, 'eps': eps}
         yield {'kind': 'tm', 'cls': 'random_tm', 'ref': txg.tm(rng)}
-        yield {'kind': 'cfg', 'cls': 'random_simple_grammar', 'ref': simple_grammar(rng), 'eps': rng.choice(['ε', '_'])}
+        RGs = simple_grammar(rng)
+        yield {'kind': 'cfg', 'cls': 'random_simple_grammar', 'ref': RGs, 'eps': rng.choice(['ε', '_'])}
+        # a grammar object whose own epsilon symbol is a declared letter / digit (as parsed from a text with "epsilon = z")
+        free = [c for c in 'ezx0' if c not in RGs[1]]
+        if free:
+            yield {'kind': 'cfg', 'cls': 'simple_grammar_with_declared_epsilon', 'ref': RGs, 'eps': rng.choice(free)}
         t = rxg.random_tree(rng, rng.randint(2, 9), 'abc', bias=rng.choice([None, 'star', 'unit']))
         if rx.size_iter(t) <= 80:
             yield {'kind': 'rx', 'cls': 'random_tree', 'ref': t}
